@@ -45,4 +45,7 @@ def run(ctx, rep):
     # shared mechanism: no wrap-induced jump of the interpolated right ascension / declination (R1.2)
     from . import shared, modular, conv as _CV
     shared.include(ctx, rep, lambda c_, r_: modular.check(c_, r_, _CV.get(c_)), {'R1.2'}, why='360->0 seam hygiene of the interpolation')
+    # shared mechanism: the clock-time conversion (minutes from the same hour, wraps after the offset, bounded operands)
+    from . import shared, c11 as _c11
+    shared.include(ctx, rep, _c11.run, {'R11.3', 'R11.4', 'R11.7'}, why='every reported hour becomes a valid clock time (minutes from the same hour, wraps, bounded operands)')
 
